@@ -1,5 +1,6 @@
 from __future__ import annotations
 
+import re
 from dataclasses import dataclass
 from pathlib import Path
 from typing import List
@@ -22,6 +23,8 @@ class SMMapSet(
         """Reads a .sm file"""
         ms = SMMapSet()
         lines = "\n".join(lines) if isinstance(lines, list) else lines
+        # A // comment runs to the end of its line, wherever it starts
+        lines = re.sub(r"//[^\n]*", "", lines)
         file_spl = [i.strip() for i in lines.split(";")]
         metadata = []
         maps = []
